@@ -167,7 +167,7 @@ static std::string gen_printf(Rng &r) {
 		default: {
 			f += "%";
 			if(r.chance(1, 4)) { f += std::to_string(r.below(11)); f += "$"; }
-			for(size_t q = r.below(4); q; q--) f.push_back("-+ #0'"[r.below(6)]);
+			for(size_t q = r.below(4); q; q--) { if(r.chance(1, 7)) { f.push_back((char)('0' + r.below(10))); f.push_back('$'); } else f.push_back("-+ #0'"[r.below(6)]); } // frigg's loop accepts "n$" between flags: the last one wins, "0$" makes the directive sequential
 			if(r.chance(1, 2)) { if(r.chance(1, 4)) f += "*"; else f += std::to_string(r.chance(1, 10) ? r.next() % 100000 : r.below(40)); }
 			if(r.chance(1, 3)) { f += "."; if(r.chance(1, 4)) f += "*"; else if(r.chance(3, 4)) f += std::to_string(r.below(40)); }
 			f += r.pick(std::vector<std::string>{"", "", "h", "hh", "l", "ll", "z", "t", "j", "L", "hhh", "lll"});
@@ -266,19 +266,19 @@ int main(int argc, char **argv) {
 	}
 	if(want_mode("printf-gen")) {
 		Rng r(derive_seed("pg"));
-		uint64_t n = scaled(40000, 1500000);
+		uint64_t n = scaled(400000, 3000000);
 		for(uint64_t i = 0; i < n; i++) { begin_case("printf-gen", i); Rng rr(r.next()); std::string f = gen_printf(rr); printf_input(f, rr, i % 5000 == 0); note_distinct(hash_str("pg:" + f)); }
 		sample("printf-gen: e.g. \"%3$-#07.*llx text%%%hhh\" (grammar-generated, then a character deleted / duplicated / the tail truncated)");
 	}
 	if(want_mode("cmdline-gen")) {
 		Rng r(derive_seed("cg"));
-		uint64_t n = scaled(30000, 1000000);
+		uint64_t n = scaled(200000, 2000000);
 		for(uint64_t i = 0; i < n; i++) { begin_case("cmdline-gen", i); Rng rr(r.next()); std::string s = gen_cmdline(rr); cmdline_input(s, rr); note_distinct(hash_str("cg:" + s)); }
 		sample("cmdline-gen: e.g. \"\\\"a=v a l\\\" a1=99999999999999999999 \\\"aa\" over four option tables (flags, string views, numbers of 6 widths, duplicate names via joined spans)");
 	}
 	if(want_mode("fmt-gen")) {
 		Rng r(derive_seed("fg"));
-		uint64_t n = scaled(20000, 500000);
+		uint64_t n = scaled(150000, 1500000);
 		for(uint64_t i = 0; i < n; i++) { begin_case("fmt-gen", i); Rng rr(r.next()); std::string f; for(size_t k = rr.below(24); k; k--) f.push_back("{}{}::0123456789xXbcdoiq {"[rr.below(26)]); fmt_input(f, rr); note_distinct(hash_str("fg:" + f)); }
 	}
 	return finish();
